@@ -55,6 +55,12 @@ claims.update({
    'Not decided: the tick arithmetic in general (that the lazily moved quantity is exactly steps minus the ticks until the holding slot is scanned again), timing. Two genuine defects found by these rules were repaired (07dfa65, 4267200).',
    'DESIGN.md 3.C12'),
 })
+claims.update({
+ 'C13': ('other', 'inverse-map and lock/dirty/notify rules on all paths, per-event path table of the watch loop, per-key decision table of the snapshot diff and dispatch-order rule, resolver publication flow',
+   'Container key->value and value->keys maps stay inverse (a key is re-pointed only after its previous image was dropped or is known absent/equal); every mutation holds the lock and marks the view dirty; Values() rebuilds from the value map; OnAdd/OnDelete apply the event then notify once; each PUT/DELETE watch event updates the watcher map under the lock and is forwarded with its own key/value, outside the lock; the reload diff classifies every key exactly, stores the new snapshot, and a changed key\'s removal cannot erase its new value; resolver publishes subset(Values(), 32) and is registered as listener.',
+   'Not decided: convergence over arbitrary event histories, etcd semantics, kube EventHandler (not covered by a rule yet). Two genuine defects found by these rules were repaired (580f3ce, e1532fa).',
+   'DESIGN.md 3.C13'),
+})
 not_built_reason = 'static rules designed (DESIGN.md section 3) but not built yet in this revision'
 
 checks, na = [], []
